@@ -213,6 +213,12 @@ def gen_suffix(rng, wb, sb, allow_empty=True):
 INSPECT = [2, 3, 4, 6, 7]
 
 
+def _seal_op(rng):
+    """9: into_compressed; 11: Vec::from(encoder); 12: same message through a Cursor sink.  All three
+    are the same operation in the model."""
+    return rng.choice([9, 9, 9, 11, 12, 12])
+
+
 def _inspect_ops(rng, ms, msg_so_far, force_pos=False):
     """a few inspections of the encoder; returns ops"""
     ops = []
@@ -242,9 +248,10 @@ def _decode_ops(rng, msg, n_snaps_at, nmodels, seeks=True):
     if seeks and n_snaps_at:
         for _ in range(rng.choice([0, 1, 2, 3, 5])):
             j = rng.randrange(len(n_snaps_at))
-            ops += [22, j]
+            sk = rng.choice([22, 22, 27])   # 27: state rebuilt through RangeCoderState::new
+            ops += [sk, j]
             if rng.random() < 0.2:
-                ops += [22, j]          # repeated seek
+                ops += [sk, j]          # repeated seek
             start = n_snaps_at[j]
             k = rng.choice([0, 1, 2, 5, len(msg) - start])
             for mi, _ in msg[start:start + k]:
@@ -290,7 +297,7 @@ def gen_roundtrip(rng, with_suffix=False, max_syms=300):
         snaps_at.append(len(msg))
     ops += [3, 2, 3]
     sfx = gen_suffix(rng, wb, sb) if with_suffix else []
-    ops += [9, len(sfx)] + sfx
+    ops += [_seal_op(rng), len(sfx)] + sfx
     ops += _decode_ops(rng, msg, snaps_at, len(ms))
     if rng.random() < 0.2:
         ops += [24, rng.choice([10 ** 6, 2 ** 40]), 0, (1 << sb) - 1]     # position beyond the data
@@ -470,7 +477,7 @@ def gen_carry(rng, with_suffix=False, max_syms=90):
         snaps_at.append(len(msg))
     ops += [3, 2, 3, 6]
     sfx = gen_suffix(rng, wb, sb) if with_suffix else []
-    ops += [9, len(sfx)] + sfx
+    ops += [_seal_op(rng), len(sfx)] + sfx
     ops += _decode_ops(rng, msg, snaps_at, len(ms))
     return _assemble(wb, sb, pb, ms, ops)
 
@@ -552,7 +559,7 @@ def gen_seal_steer(rng):
     m = sb // wb
     n = rng.choice([1, m - 1, m, 2 * m])
     sfx = rng.choice([[B - 1] * n, [B - 1] * n, [0] * n, [rng.randrange(B) for _ in range(n)]])
-    ops += [9, len(sfx)] + sfx
+    ops += [_seal_op(rng), len(sfx)] + sfx
     ops += _decode_ops(rng, msg, [], len(ms), seeks=False)
     return _assemble(wb, sb, pb, ms, ops)
 
@@ -673,7 +680,7 @@ def gen_seal_rare(rng):
     n = rng.choice([1, 2, 4])
     sfx = rng.choice([[B - 1] * n, [B - 1] * n, [B - 1] * n, [0] * n, [rng.randrange(B) for _ in range(n)],
                       [B - 2] + [B - 1] * (n - 1)])
-    ops += [9, len(sfx)] + sfx
+    ops += [_seal_op(rng), len(sfx)] + sfx
     ops += _decode_ops(rng, msg, [], len(ms), seeks=False)
     return _assemble(wb, sb, pb, ms, ops)
 
@@ -783,7 +790,7 @@ def gen_rawparts(rng):
             continue
         ops += [3, 2, 6]
         if rng.random() < 0.5:
-            ops += [9, 0]
+            ops += [_seal_op(rng), 0]
             for _ in range(rng.randint(0, 10)):
                 ops += [20, rng.randrange(len(ms))]
         return _assemble(wb, sb, pb, ms, ops)
@@ -848,7 +855,7 @@ def walk(inp, out):
             elif op == 8:
                 n = inp[i + 1]
                 yield (8, (inp[i + 2:i + 2 + n], inp[i + 2 + n:i + 6 + n]), take(1)[0]); i += 6 + n
-            elif op == 9:
+            elif op in (9, 11, 12):     # the three ways to seal: one operation for every oracle
                 n = inp[i + 1]
                 yield (9, inp[i + 2:i + 2 + n], words()); i += 2 + n
                 phase = "dec"
@@ -868,7 +875,7 @@ def walk(inp, out):
                 yield (26, (inp[i + 1], inp[i + 2]), (n, take(2 * n), take(2))); i += 3
             elif op == 21:
                 yield (21, (), take(1)[0]); i += 1
-            elif op == 22:
+            elif op in (22, 27):        # 27 = 22 with the state rebuilt from its numbers
                 yield (22, inp[i + 1], take(1)[0]); i += 2
             elif op == 23:
                 yield (23, (), take(4)); i += 1
